@@ -66,14 +66,18 @@ def make_world_factory(cfg, tmpdir):
 
     def make_world():
         c = [np.array(hvec("c19-c%d-%d" % (sd, i), 3, -1, 1)) for i in range(3)]
-        s0 = S(1, c[0], np.array([[0.6, -0.2], [0.5, 0.9]]), np.array([0.8, 2.6]), "spherical")
-        s1 = S(2, c[1], np.array([1.0]), np.array([1.3]), "cartesian")
-        s2 = S(0, c[2], np.array([0.4, 0.7, 0.2]), np.array([0.3, 1.9, 11.0]), "cartesian")
+        # the arrays handed to the constructors stay in the world ("ctor_args"): a later parameter update of a
+        # shell must leave what the caller passed earlier bit-identical (deepcopy keeps the sharing)
+        ctor = [np.array([[0.6, -0.2], [0.5, 0.9]]), np.array([0.8, 2.6]), np.array([1.0]), np.array([1.3]),
+                np.array([0.4, 0.7, 0.2]), np.array([0.3, 1.9, 11.0]), c[0].copy(), c[1].copy(), c[2].copy()]
+        s0 = S(1, ctor[6], ctor[0], ctor[1], "spherical")
+        s1 = S(2, ctor[7], ctor[2], ctor[3], "cartesian")
+        s2 = S(0, ctor[8], ctor[4], ctor[5], "cartesian")
         shells = [s0, s1, s2]
         n = 2 * 3 + 6 + 1
         X = np.array([hvec("c19-X%d" % r, n, -1, 1) for r in range(n)])
         w = {
-            "shells": shells, "basis_tuple": tuple(shells), "basis_list": list(shells),
+            "shells": shells, "basis_tuple": tuple(shells), "basis_list": list(shells), "ctor_args": ctor,
             "points": np.array([hvec("c19-p%d" % i, 3, -2, 2) for i in range(4)]),
             "charge_coords": np.array([c[0] + 0.3, c[2] - 0.2]), "charges": np.array([1.0, -3.0]),
             "nuc_coords": np.array([c[0], c[1], c[2]]), "nuc_charges": np.array([1.0, 6.0, 2.0]),
@@ -101,6 +105,20 @@ def make_world_factory(cfg, tmpdir):
         return w
 
     return make_world
+
+
+def _mc_update(w):
+    """shells of equal elements are built from the same dictionary entries: updating one shell's parameters must
+    not reach the dictionary (checked by I1) nor the other atoms' shells (returned)"""
+    from gbasis import parsers
+    from gbasis.integrals.overlap import overlap_integral
+
+    sh = parsers.make_contractions(w["basis_dict"], w["atoms"], w["atom_coords"], "cartesian")
+    sh[0].exps = sh[0].exps * 1.25
+    sh[0].coeffs = sh[0].coeffs * 0.5
+    sh[0].coord = sh[0].coord + 1.0
+    sh[0].assign_norm_cont()
+    return _shells_digest(sh[1:]), overlap_integral(sh)
 
 
 def build_ops(cfg):
@@ -205,6 +223,7 @@ def build_ops(cfg):
         Op("INVALID force(beta None)", lambda w: st.evaluate_ehrenfest_force(w["gam_sym"], w[B], w["points"], beta=None), "invalid"),
         Op("INVALID generate_transformation(labels)", lambda w: generate_transformation(1, w[B][0].angmom_components_cart, ("c1", "s-1", "c0"), "left"), "invalid"),
         Op("INVALID parse_nwchem(missing file)", lambda w: parsers.parse_nwchem(w["files"][0] + ".missing"), "invalid"),
+        Op("make_contractions then update the first shell's parameters", lambda w: _mc_update(w)),
         Op("INVALID make_contractions(atom count)", lambda w: parsers.make_contractions(w["basis_dict"], w["atoms"][:2], w["atom_coords"], "c"), "invalid"),
         Op("INVALID make_contractions(coord_types length)", lambda w: parsers.make_contractions(w["basis_dict"], w["atoms"], w["atom_coords"], w["ct_list"][:-1]), "invalid"),
         Op("INVALID make_contractions(coord_types word)", lambda w: parsers.make_contractions(w["basis_dict"], w["atoms"], w["atom_coords"], "pure"), "invalid"),
@@ -414,7 +433,7 @@ def evaluate(cfg):
         ops = build_ops(cfg)
         probes = probe_list()
         parts = ["shells", "basis_tuple", "basis_list", "points", "charge_coords", "charges", "nuc_coords", "nuc_charges",
-                 "origin", "orders", "deriv_orders", "gam_psd", "gam_sym", "gam_asym", "gam_round", "T_sq", "T_rect", "T_bad", "ct_list",
+                 "origin", "orders", "deriv_orders", "gam_psd", "gam_sym", "gam_asym", "gam_round", "T_sq", "T_rect", "T_bad", "ct_list", "ctor_args",
                  "ct_tuple", "basis_dict", "atoms", "atom_coords", "alt_exps", "alt_coeffs", "alt_coord", "files"]
         import warnings
 
